@@ -26,8 +26,15 @@ Prots == << [orig |-> <<>>, hdr |-> EmptyHeader],                 \* 1 built emp
             Decoded(<<160>>),                                     \* 7 decoded a0
             Decoded(<<161, 1, 38>>),                              \* 8 decoded canonical {1:-7}
             Decoded(<<191, 27,0,0,0,0,0,0,0,1, 56, 6, 255>>),      \* 9 decoded non-canonical {1:-7}
-            Decoded(<<162, 4, 66, 49, 49, 1, 38>>) >>             \* 10 decoded, unsorted keys
+            Decoded(<<162, 4, 66, 49, 49, 1, 38>>),              \* 10 decoded, unsorted keys
+            (* built headers holding exactly ONE typed field each (the emptiness test must know every field) *)
+            [orig |-> <<>>, hdr |-> [EmptyHeader EXCEPT !.crit = <<Assigned("HeaderParameter", "Alg")>>]],      \* 11
+            [orig |-> <<>>, hdr |-> [EmptyHeader EXCEPT !.ct = <<Assigned("CoapContentFormat", "Cbor")>>]],     \* 12
+            [orig |-> <<>>, hdr |-> [EmptyHeader EXCEPT !.kid = <<49>>]],                                       \* 13
+            [orig |-> <<>>, hdr |-> [EmptyHeader EXCEPT !.iv = <<1, 2>>]],                                      \* 14
+            [orig |-> <<>>, hdr |-> [EmptyHeader EXCEPT !.piv = <<1, 2>>]] >>                                   \* 15
 NP == Len(Prots)
+SignIdx == IF Fam = "sig" THEN {1, 2, 3, 4, 6, 7, 9, 10, 13, 15} ELSE {1}     \* the signer header matters to the sig family only
 BuiltNonEmpty(p) == p.orig = <<>> /\ ~Header_IsEmpty(p.hdr)
 Slot(p) == Prot_Bstr(p).x.b
 
@@ -46,7 +53,7 @@ VARIABLE st
 (* one initial state per route, so that TLC's workers share the fan-out *)
 Init == st \in {[mode |-> "route", r |-> r] : r \in Routes}
 Next == st.mode = "route" /\
-  \/ \E b \in 1..NP : \E s \in 1..NP : \E la \in Lens : \E pl \in Lens \cup {-1} :
+  \/ \E b \in 1..NP : \E s \in SignIdx : \E la \in Lens : \E pl \in Lens \cup {-1} :
        st' = [mode |-> "go", r |-> st.r, b |-> b, s |-> s, la |-> la, pl |-> pl]
   \/ \E b \in {1, 2, 8} : \E la \in BigLens : \E pl \in BigLens :      \* the large length classes with fewer headers
        st' = [mode |-> "go", r |-> st.r, b |-> b, s |-> 2, la |-> la, pl |-> pl]
